@@ -278,6 +278,27 @@ def check_case(case, ctr):
             p = os.path.join(Ctx.tmp, 'c.json')
             c0.tojson(p, ignore_lattice=flag)
             same(C.fromjson(p), 'json-path', state=state, dump_flag=flag)
+            # the file written through a path read through the caller's own UTF-8 file object,
+            # and by an independent JSON reader (what is on disk is JSON text in UTF-8)
+            try:
+                with open(p, encoding='utf-8') as fobj:
+                    same(C.fromjson(fobj), 'json-path-then-fileobj', state=state, dump_flag=flag)
+                with open(p, 'rb') as fobj:
+                    on_disk = json.loads(fobj.read().decode('utf-8'))
+                if _norm(on_disk) != _norm(d):
+                    bad('json-file-is-todict', _norm(d), on_disk, state=state, dump_flag=flag)
+            except Exception as e:
+                bad('json-path-then-fileobj', 'the same context', f'{type(e).__name__}: {e}',
+                    state=state, dump_flag=flag)
+            # ... and the other way round: written through the caller's file object, read by path
+            p2 = os.path.join(Ctx.tmp, 'c2.json')
+            try:
+                with open(p2, 'w', encoding='utf-8') as fobj:
+                    c0.tojson(fobj, ignore_lattice=flag)
+                same(C.fromjson(p2), 'json-fileobj-then-path', state=state, dump_flag=flag)
+            except Exception as e:
+                bad('json-fileobj-then-path', 'the same context', f'{type(e).__name__}: {e}',
+                    state=state, dump_flag=flag)
             pp = pathlib.Path(Ctx.tmp) / 'p.json'
             c0.tojson(pp, ignore_lattice=flag, indent=2)
             same(C.fromjson(pp, raw=True), 'json-pathlib', state=state, dump_flag=flag)
@@ -479,13 +500,18 @@ def run_long():
     ctr = collections.Counter()
     V = []
     for n, m, word in ((8, 4, 'object number'), (12, 3, 'a b c d e f g'), (3, 12, 'x'),
-                       (3, 2, 'empty-object-label'), (3, 2, 'empty-property-label')):
+                       (3, 2, 'empty-object-label'), (3, 2, 'empty-property-label'),
+                       (3, 2, 'astral-labels'), (3, 2, 'escape-labels')):
         objs = [f'{word} {i} of the table' for i in range(n)]
         props = [f'property {j} with a rather long name' for j in range(m)]
         if word == 'empty-object-label':        # the empty string is a label like any other
             objs, props = ['', 'b', ' '], ['p', 'q']
         elif word == 'empty-property-label':
             objs, props = ['a', 'b', 'c'], ['p', '']
+        elif word == 'astral-labels':           # beyond the Basic Multilingual Plane
+            objs, props = ['\U0001F600', 'b\U0001D400', '\u00e4\u20ac'], ['\U0001F4A9p', 'q\uffff']
+        elif word == 'escape-labels':           # characters every text form has to escape
+            objs, props = ['a\\b', "it's", '"q"\n'], ['\x00', '\x7f\t\r']
         for shift in range(3):
             rows = [tuple((i + j + shift) % 3 == 0 for j in range(m)) for i in range(n)]
             c = concepts.Context(objs[shift:] + objs[:shift], props, rows)
